@@ -217,7 +217,9 @@ func (m *collection) mergerWaitForWork(pings []ping) (
 
 	m.m.Lock()
 
-	if m.stackDirtyTop == nil || len(m.stackDirtyTop.a) <= 0 {
+	// A batch that only touches child collections leaves the top-level
+	// segments empty, but is work for the merger all the same.
+	if m.stackDirtyTop == nil || m.stackDirtyTop.isEmpty() {
 		m.waitDirtyIncomingCh = make(chan struct{})
 		waitDirtyIncomingCh = m.waitDirtyIncomingCh
 	}
